@@ -200,8 +200,16 @@ Theorem C18_stream_accept_is_sent :
   exists rest, st_decode bs = Some (st_dec_of p, st_header p, ct, tag, rest).
 Proof. exact DcPacketProofs.st_accept_is_sent. Qed.
 
-Theorem C18_pkt_judge_model : forall case, pkt_judge case (pkt_run case) = true.
+(* the model of the pkt harness satisfies the executable property on every case that does not
+   retransmit a stream packet ... *)
+Theorem C18_pkt_judge_model : forall case, pkt_rt_clean case = true -> pkt_judge case (pkt_run case) = true.
 Proof. exact DcPacketProofs.pkt_judge_run. Qed.
+
+(* ... and not on those that do: in a retransmitted stream packet the IS_RECOVERY_PACKET bit of the
+   tag byte is cleared before the AEAD check and is not covered by the retransmission mask (known
+   finding retransmit_space_bit_unauthenticated; witness replayed by the fixed family) *)
+Theorem C18_pkt_rt_refuted : exists case, pkt_judge case (pkt_run case) = false.
+Proof. exact DcPacketProofs.pkt_rt_refuted. Qed.
 
 (* non-vacuity: a stream packet with every optional field, and its header bytes *)
 Example C18_example_stream :
@@ -286,3 +294,4 @@ Print Assumptions C18_stream_parse_injective.
 Print Assumptions C18_datagram_parse_injective.
 Print Assumptions C18_control_parse_injective.
 Print Assumptions C18_stream_fields_of_header.
+Print Assumptions C18_pkt_rt_refuted.
